@@ -65,7 +65,7 @@ ASSUMPTIONS = [
     "foreign objects are compared by identity and by a snapshot of their __dict__",
 ]
 FAULT_KINDS = ["converter-finishes-after-k-polls", "converter-finishes-at-communicate",
-               "disabling-context", "non-dict-subcontext"]
+               "child-process-fails", "disabling-context", "non-dict-subcontext"]
 EXPECTED_PROBES = ["A-empty", "B-empty", "A-and-B", "unselected-between-two-selected",
                    "poll-triggered-by-unselected-value", "disk-written", "process-launched",
                    "template-loaded"] + ["element-" + n for n in
@@ -615,6 +615,9 @@ def gen_scenario(tape):
     sc.a = [(tape.choice(sc.el.a_kinds, "a-kind"), i) for i in range(na)]
     sc.b = [(tape.choice(sc.el.b_kinds, "b-kind"), j) for j in range(nb)]
     sc.plan = [tape.choice([None, 0, 1, 2, 3], "finish-after") for _ in range(na)]
+    # a child process may fail (non-zero return code, nothing written); the same plan is used
+    # for the run on A alone and for every merge schedule
+    sc.failplan = [tape.chance(1, 6, "child-fails") for _ in range(na)]
     nsched = 4 if _TIER[0] == "quick" else 12
     sc.schedules = []
     for _ in range(nsched if (na and nb) else 1):
@@ -641,7 +644,14 @@ def execute(sc, order, res, count_faults=False):
         if count_faults:
             res.fault("converter-finishes-at-communicate" if k is None else "converter-finishes-after-k-polls")
         return k
-    w.sub = SimSubprocess(w.fs, log=log, plan=planner)
+    failplan = list(getattr(sc, "failplan", []))
+
+    def failer(tool, n):
+        bad = n < len(failplan) and bool(failplan[n])
+        if bad and count_faults:
+            res.fault("child-process-fails")
+        return bad
+    w.sub = SimSubprocess(w.fs, log=log, plan=planner, fail_plan=failer)
     install(w.fs, w.sub)
     w.fs.poke("out/.keep", "")
     sc.el.prepare(w, sc.a)
@@ -771,6 +781,11 @@ def run(tape):
                          % (summarize(w.bsnap[k]), summarize(canon(v))))
                 return res
         # 2. unselected values cause no access
+        if not sc.a and (w.ops or w.launches or w.template_loads):
+            res.viol("C10:%s:unselected-values-touch-the-file-system" % name,
+                     "no value of the flow is selected, yet the element made these accesses: %r"
+                     % (summarize((w.ops + w.launches + w.template_loads)[:4]),))
+            return res
         if sorted(w.ops) != sorted(alone.ops) or sorted(w.launches) != sorted(alone.launches) \
                 or sorted(w.template_loads) != sorted(alone.template_loads):
             extra = [o for o in w.ops if o not in alone.ops] or \
